@@ -418,7 +418,9 @@ func runExpiry(c *expiryCase) (bool, error) {
 			if age < T-slack {
 				lo++
 			}
-			if age < T+slack {
+			// expiry is a sleeping goroutine: under load it may run late (not a defect),
+			// but never early; "eventually zero" is checked at the end
+			if age < 3*T+time.Second {
 				hi++
 			}
 		}
